@@ -52,6 +52,9 @@ pub struct IndexRead {
 
     /// Current read statistics of this index
     pub stats: IndexReadStats,
+
+    /// True if the hunk file most recently read was zero-length.
+    last_read_was_empty: bool,
 }
 
 impl IndexRead {
@@ -65,6 +68,7 @@ impl IndexRead {
             transport,
             decompressor: Decompressor::new(),
             stats: IndexReadStats::default(),
+            last_read_was_empty: false,
         }
     }
 
@@ -94,6 +98,7 @@ impl IndexRead {
                 return Err(Error::Transport { source });
             }
         };
+        self.last_read_was_empty = compressed_bytes.is_empty();
         self.stats.index_hunks += 1;
         self.stats.compressed_index_bytes += compressed_bytes.len() as u64;
         let index_bytes = self.decompressor.decompress(&compressed_bytes)?;
@@ -158,6 +163,7 @@ impl IndexRead {
             index: self,
             after: None,
             errors: Vec::new(),
+            unfinished: false,
         })
     }
 }
@@ -172,6 +178,8 @@ pub struct IndexHunkIter {
     after: Option<Apath>,
     /// Errors from hunks that could not be read or decoded, and were skipped.
     errors: Vec<Error>,
+    /// True if the band was never finished, so its last hunk may be an interrupted write.
+    unfinished: bool,
 }
 
 impl IndexHunkIter {
@@ -187,7 +195,15 @@ impl IndexHunkIter {
                 Err(err) => {
                     // Keep going with the remaining hunks, but remember the error so that the
                     // caller can report that some entries are missing.
-                    self.errors.push(err);
+                    //
+                    // An interrupted backup can leave the hunk it was writing as a zero-length
+                    // file: that is not damage, and nothing is missing.
+                    let interrupted_write = self.unfinished
+                        && self.hunks.len() == 0
+                        && self.index.last_read_was_empty;
+                    if !interrupted_write {
+                        self.errors.push(err);
+                    }
                     continue;
                 }
             };
@@ -212,6 +228,15 @@ impl IndexHunkIter {
             if !entries.is_empty() {
                 return Some(entries);
             }
+        }
+    }
+
+    /// Note that the band was never finished, so an empty last hunk is not an error.
+    #[must_use]
+    pub(crate) fn in_unfinished_band(self) -> Self {
+        IndexHunkIter {
+            unfinished: true,
+            ..self
         }
     }
 
